@@ -104,6 +104,31 @@ func (w *pWorld) podBusy(pod string) bool {
 			return true
 		}
 	}
+	// a request that was served from the cache and then cancelled leaves a reply goroutine behind that still wants the
+	// pool lock; the model (and the theorems) assume requests of one pod do not overlap in the pool, so the pod stays
+	// busy until that goroutine has run.  (The daemon does not guarantee this after a cancellation: known finding
+	// C01/exclusive/stale-reply-after-retry, findings/C01/zz_demo3_test.go.)
+	for _, l := range w.locks {
+		l.mu.Lock()
+		gs := []gInfo{}
+		if l.held {
+			gs = append(gs, l.cur)
+		}
+		for _, wt := range l.waiters {
+			gs = append(gs, wt.g)
+		}
+		l.mu.Unlock()
+		for _, g := range gs {
+			if strings.HasPrefix(g.label, "Allocate.func") {
+				w.roleMu.Lock()
+				rid := w.allocRid[g.parent]
+				w.roleMu.Unlock()
+				if q := w.reqs[rid]; q != nil && q.pod == pod {
+					return true
+				}
+			}
+		}
+	}
 	return false
 }
 
@@ -376,7 +401,13 @@ func (w *pWorld) runCase(caseSeed uint64, focus string) {
 				if r.Intn(10) == 0 {
 					pin = fmt.Sprintf("eni-%d", 1+r.Intn(w.nslots))
 				}
-				w.opAlloc(ctx, p, false, pin)
+				q := w.opAlloc(ctx, p, false, pin)
+				if r.Intn(7) == 0 {
+					// the caller's deadline passes before the pool has looked at the request: the pool side and the manager
+					// side of the hand-over both see a cancelled context
+					q.cancel()
+					w.c.Count("cancel-at-issue")
+				}
 				// bursts: several pods ask at once
 				for r.Intn(3) == 0 {
 					q := pods[r.Intn(len(pods))]
